@@ -48,7 +48,7 @@ type Up4Gen struct {
 	MinFlows    int  // at least this many flows per session
 	MaxFlows    int  // at most this many flows at establishment (0: no limit)
 	NoSessQer   bool // no session has a session-level QER
-	GbrMode     int  // guaranteed rates of the flows' QERs: 0 as drawn, 1 none, 2 always
+	GbrMode     int  // guaranteed rates of the flows' QERs: 0 as drawn, 1 none, 2 always, 3 none and a maximum rate above the session-level QER's
 	AlwaysQer   bool // every flow has a QER of its own
 	SessionOnly bool
 	EndMarkers  bool // FAR updates ask for end markers (SNDEM) most of the time
@@ -317,6 +317,18 @@ func (g *Up4Gen) dlFar(id uint32, update bool) pfcpx.FAR {
 	}
 }
 
+// sessGates: now and then the session-level QER closes a gate (every QER of a PDR applies to its packets)
+func (g *Up4Gen) sessGates(q *pfcpx.QER) {
+	q.ULGate, q.DLGate = 0, 0
+
+	switch g.R.Intn(8) {
+	case 0:
+		q.ULGate = 1
+	case 1:
+		q.DLGate = 1
+	}
+}
+
 func (g *Up4Gen) appQer(id uint32) pfcpx.QER {
 	q := pfcpx.QER{ID: id, QFI: g.QFIs[g.R.Intn(len(g.QFIs))], ULMBR: uint64(1000 + g.R.Intn(1000000)), DLMBR: uint64(1000 + g.R.Intn(1000000)),
 		ULGBR: uint64(g.R.Intn(1000)), DLGBR: uint64(g.R.Intn(1000))}
@@ -338,6 +350,9 @@ func (g *Up4Gen) appQer(id uint32) pfcpx.QER {
 		q.ULGBR, q.DLGBR = 0, 0
 	case 2:
 		q.ULGBR, q.DLGBR = uint64(1+g.R.Intn(999)), uint64(1+g.R.Intn(999))
+	case 3: // no guaranteed rate and a maximum rate above any session-level QER's
+		q.ULGBR, q.DLGBR = 0, 0
+		q.ULMBR, q.DLMBR = uint64(4000000+g.R.Intn(1000000)), uint64(4000000+g.R.Intn(1000000))
 	}
 
 	return q
@@ -475,6 +490,7 @@ func (g *Up4Gen) Establish(peer string) bool {
 	if (g.R.Intn(2) == 0 || g.ForceSessQer) && !g.NoSessQer {
 		s.sessQer = 1
 		s.sq = pfcpx.QER{ID: 1, QFI: 0, ULMBR: uint64(2000000 + g.R.Intn(1000000)), DLMBR: uint64(2000000 + g.R.Intn(1000000)), NoGBR: true}
+		g.sessGates(&s.sq)
 	}
 
 	s.fd = g.dlFar(0, false)
@@ -611,6 +627,8 @@ func (g *Up4Gen) ModifyKind(s *usess, kind int) {
 				nq.ULMBR, nq.DLMBR = uint64(500+g.R.Intn(3000)), uint64(500+g.R.Intn(3000))
 			}
 
+			g.sessGates(&nq)
+
 			r.UQER = []pfcpx.QER{nq}
 
 			if accepted(g.W.Mod(s.peer, r)) {
@@ -698,6 +716,8 @@ func (g *Up4Gen) UpdateSessQer(s *usess, low bool) {
 	if low {
 		nq.ULMBR, nq.DLMBR = uint64(100+g.R.Intn(800)), uint64(100+g.R.Intn(800))
 	}
+
+	g.sessGates(&nq)
 
 	if accepted(g.W.Mod(s.peer, &SessReq{Hdr: s.up, UQER: []pfcpx.QER{nq}})) {
 		s.sq = nq
